@@ -288,7 +288,9 @@ func (s *Sched) Run(maxSteps int) error {
 		for _, it := range fresh {
 			n, ok := s.gnames[it.gid]
 			if !ok {
-				n = "g" + strconv.Itoa(len(s.gnames)+1)
+				// an unnamed goroutine is named after the place where it first parked (not by a
+				// counter: a counter would let one flipped arrival order rename every later goroutine)
+				n = "g@" + it.Key
 				s.gnames[it.gid] = n
 			}
 			it.Owner = n
